@@ -58,13 +58,16 @@ def build(case):
     f = file('acme/auto/v1/auto.proto', P, messages=msgs, services=[service(sn, ms) for sn, ms in by_svc.items()])
     y = 'type: google.api.Service\nconfig_version: 3\nname: auto.example.com\npublishing:\n  method_settings:\n'
     for sel, fields_ in case['settings']:
+        poll_only = sel.startswith('POLL:')
+        sel = sel[5:] if poll_only else sel
         full = sel[4:] if sel.startswith('RAW:') else f'{P}.{svc_of.get(sel, "Auto")}.{sel}'
         y += f'  - selector: {full}\n'
-        if case.get('long_running'):
+        if case.get('long_running') or poll_only:
             # the same entry also carries long-running polling settings (usual for a Create method with a request id)
             y += ('    long_running:\n      initial_poll_delay: 1s\n      poll_delay_multiplier: 1.5\n      max_poll_delay: 5s\n'
                   '      total_poll_timeout: 60s\n')
-        y += '    auto_populated_fields:\n' + ''.join(f'    - {x}\n' for x in fields_)
+        if fields_ or not poll_only:
+            y += '    auto_populated_fields:\n' + ''.join(f'    - {x}\n' for x in fields_)
     if case.get('selective') is not None:
         # selective generation that keeps the unlisted methods as internal ones: their settings still apply
         y += ('  library_settings:\n'
@@ -142,6 +145,13 @@ def cases():
                     accept=False, drive=[]))
     out.append(dict(id='duplicate-selector', fields=[('request_id', GOOD)], methods={'Do': 'unary'},
                     settings=[('Do', ['request_id']), ('Do', ['request_id'])], accept=False, drive=[]))
+    # the same selector twice with *different* content (wave 7): still a duplicate, whatever the entries carry
+    out.append(dict(id='duplicate-selector/different-fields', fields=[('request_id', GOOD), ('other_id', GOOD_OPT)], methods={'Do': 'unary'},
+                    settings=[('Do', ['request_id']), ('Do', ['other_id'])], accept=False, drive=[]))
+    out.append(dict(id='duplicate-selector/first-without-fields', fields=[('request_id', GOOD)], methods={'Do': 'unary'},
+                    settings=[('Do', []), ('Do', ['request_id'])], accept=False, drive=[]))
+    out.append(dict(id='duplicate-selector/polling-entry-then-fields', fields=[('request_id', GOOD)], methods={'Do': 'unary'},
+                    settings=[('POLL:Do', []), ('Do', ['request_id'])], accept=False, drive=[]))
     out.append(dict(id='two-fields/both-valid', fields=[('request_id', GOOD), ('other_id', GOOD_OPT)], methods={'Do': 'unary'},
                     settings=[('Do', ['request_id', 'other_id'])], accept=True,
                     drive=[('Do', [('request_id', GOOD), ('other_id', GOOD_OPT)])]))
